@@ -44,7 +44,7 @@ def rel_of(p):
 # Gallina serialisation
 # ------------------------------------------------------------------------------------------------
 def q_nl(ids):
-    return q.lst(q.N(x) for x in ids)
+    return "[" + ";".join(str(x) for x in ids) + "]"          # N_scope is open in the shard (see prelude)
 
 
 def q_imp(imp):
@@ -54,9 +54,9 @@ def q_imp(imp):
 
 def q_tree(files):
     items = sorted(files.items(), key=lambda kv: rel_of(kv[0]))  # the order of sorted(glob.glob(...))
-    return q.lst(
-        "(%s, {| f_gen := %s; f_mtime := %s; f_imps := %s |})" % (q_nl(unpid(p)), q.N(i["gen"]), q.N(i["mtime"]), q.lst(q_imp(x) for x in i["imps"]))
-        for p, i in items)
+    return "[" + ";".join(
+        "(%s,Build_file %d %d [%s])" % (q_nl(unpid(p)), i["gen"], i["mtime"], ";".join(q_imp(x) for x in i["imps"]))
+        for p, i in items) + "]"
 
 
 def q_arg(a):
@@ -67,32 +67,47 @@ def q_arg(a):
     return f"(RName {q_nl(a)})"
 
 
-def q_step(st):
-    cfg = q.lst(f"({q.N(int(a))}, {q.N(v)})" for a, v in sorted(st["cfg"].items(), key=lambda kv: int(kv[0])))
-    return "{| rs_tree := %s; rs_cfg := %s; rs_arg := %s |}" % (q_tree(st["files"]), cfg, q_arg(st["arg"]))
-
-
 def _n(x):
-    return q.N(x if isinstance(x, int) and x >= 0 else 999999)
+    return str(x if isinstance(x, int) and x >= 0 else 999999)
+
+
+def _b(x):
+    return "true" if x else "false"
 
 
 def q_octx(c, steps):
-    cfgl = None
+    cfgl = "None"
     nm = c["name"]
     b = c["born"]
     if len(nm) == 2 and nm[0] == APPS and isinstance(b, int) and 0 <= b < len(steps):
         v = steps[b]["cfg"].get(str(nm[1]))
-        cfgl = None if v is None else q.N(v)
-    return ("{| o_name := %s; o_gen := %s; o_mtime := %s; o_cfg := %s; o_cfgl := %s; o_imports := %s; o_ismod := %s; o_rel := %s; "
-            "o_born := %s; o_started := %s; o_cnt := %s |}" % (
-                q_nl(nm), _n(c["gen"]), _n(c["mtime"]), _n(c["cfg"]), q.option(cfgl), q.lst(q_nl(i) for i in c["imports"]),
-                q.boolean(c["ismod"]), q.option(q_nl(c["rel"]) if c["rel"] is not None else None), _n(c["born"]),
-                q.boolean(c["started"]), _n(c["cnt"])))
+        cfgl = "None" if v is None else f"(Some {v})"
+    # Build_octx name gen mtime cfg cfgl imports ismod rel born started cnt
+    return "(Build_octx %s %s %s %s %s [%s] %s %s %s %s %s)" % (
+        q_nl(nm), _n(c["gen"]), _n(c["mtime"]), _n(c["cfg"]), cfgl, ";".join(q_nl(i) for i in c["imports"]), _b(c["ismod"]),
+        f"(Some {q_nl(c['rel'])})" if c["rel"] is not None else "None", _n(c["born"]), _b(c["started"]), _n(c["cnt"]))
 
 
 def q_ostep(o, steps):
-    ev = q.lst(f"({q_nl(n)}, {_n(g)})" for n, g in o["events"])
-    return "{| os_events := %s; os_ctxs := %s |}" % (ev, q.lst(q_octx(c, steps) for c in o["ctxs"]))
+    ev = "[" + ";".join(f"({q_nl(n)},{_n(g)})" for n, g in o["events"]) + "]"
+    return "(Build_ostep %s [%s])" % (ev, ";".join(q_octx(c, steps) for c in o["ctxs"]))
+
+
+def q_case(case, obs):
+    """one rcase; identical trees of successive steps are shared through let-bindings"""
+    steps = case["steps"]
+    lets, names, seen = [], [], {}
+    for st in steps:
+        t = q_tree(st["files"])
+        if t not in seen:
+            seen[t] = f"pv_t{len(seen)}"
+            lets.append(f"let {seen[t]} : tree := {t} in")
+        names.append(seen[t])
+    qs = []
+    for st, tn in zip(steps, names):
+        cfg = "[" + ";".join(f"({int(a)},{v})" for a, v in sorted(st["cfg"].items(), key=lambda kv: int(kv[0]))) + "]"
+        qs.append(f"(Build_rstep {tn} {cfg} {q_arg(st['arg'])})")
+    return "(%s Build_rcase [%s] [%s])" % (" ".join(lets), ";".join(qs), ";".join(q_ostep(o, steps) for o in obs.get("steps", [])))
 
 
 # ------------------------------------------------------------------------------------------------
@@ -411,7 +426,7 @@ class ReloadStream(Stream):
     check_spec = "rcase_spec_ok"
     attrib = "rcase_attrib pv_cfg"
     explain = "rcase_explain pv_cfg"
-    shard_size = 25
+    shard_size = 15
     coqc_timeout = 600
 
     def budget(self, tier):
@@ -429,13 +444,12 @@ class ReloadStream(Stream):
         return [o for r in res for o in r]
 
     def to_coq(self, case, obs):
-        steps = case["steps"]
-        return "{| rc_steps := %s; rc_obs := %s |}" % (
-            q.lst(q_step(s) for s in steps), q.lst(q_ostep(o, steps) for o in obs.get("steps", [])))
+        return q_case(case, obs)
 
     def prelude(self, ctx, findings, witness_terms):
-        return cfg_prelude([("d_deleted_no_propagate", "D100"), ("d_sibling_rel_name", "D101"), ("d_null_cfg", "D102"),
-                            ("d_named_start", "D103")], findings, witness_terms, "rcase_spec_ok")
+        return "Local Open Scope N_scope.\n" + cfg_prelude(
+            [("d_deleted_no_propagate", "D100"), ("d_sibling_rel_name", "D101"), ("d_null_cfg", "D102"),
+             ("d_named_start", "D103")], findings, witness_terms, "rcase_spec_ok")
 
     def key(self, case):
         import json
